@@ -3,7 +3,12 @@
 // running hash; per-site counters allow a divergence to be located.
 package trace
 
-import "math/big"
+import (
+	"fmt"
+	"math/big"
+	"reflect"
+	"strings"
+)
 
 type integer interface {
 	~int | ~int8 | ~int16 | ~int32 | ~int64 | ~uint | ~uint8 | ~uint16 | ~uint32 | ~uint64 | ~uintptr
@@ -89,6 +94,52 @@ func X(id uint32, ops ...interface{}) {
 		vals = append(vals, Canon(o))
 	}
 	ext[id] = append(ext[id], vals)
+}
+
+// Q records one operand of a comparison the compiler turns into a memory comparison (== / != on arrays, strings and
+// multi-field structs: runtime.memequal or an element-by-element chain, both of which stop at the first difference)
+// and returns it unchanged. The instrumenter wraps both operands in place, so they are evaluated exactly once and in
+// order. Like X, the values are not part of the trace hash: the monitor decides whether they are public.
+func Q[T any](id uint32, v T) T {
+	if on && detail {
+		if ext == nil {
+			ext = map[uint32][][]string{}
+		}
+		if len(ext[id]) < 64 {
+			var c string
+			switch x := any(v).(type) {
+			case string:
+				c = fmt.Sprintf("%x", x)
+			default:
+				c = strings.NewReplacer(" ", "", "[", "", "]", "", "{", "", "}", "").Replace(fmt.Sprintf("%02x", x))
+			}
+			ext[id] = append(ext[id], []string{"cmp:" + c})
+		}
+	}
+	return v
+}
+
+// PA: an address (pointer, unsafe.Pointer or uintptr) handed back by an assembly routine is about to be used by Go code.
+// Which location is accessed through it is an index event like any other: the address itself goes into the trace hash.
+// (Long-lived tables keep their addresses for the life of the process, so equal secrets give equal events; an address
+// that differs from call to call for the same secret shows up as an unstable trace, which is reported as such.)
+func PA[T any](id uint32, v T) T {
+	if on {
+		var a uint64
+		rv := reflect.ValueOf(v)
+		switch rv.Kind() {
+		case reflect.Ptr, reflect.UnsafePointer, reflect.Slice:
+			a = uint64(rv.Pointer())
+		case reflect.Uintptr:
+			a = rv.Uint()
+		}
+		mix(uint64(id) | 2<<40)
+		mix(a)
+		if detail {
+			sites[id] = sites[id]*prime + a + 1
+		}
+	}
+	return v
 }
 
 // Canon is the canonical form used by X.
